@@ -276,8 +276,10 @@ def own_matrix(op):
         return _ROT[name[1]](float(op.data[0])).astype(complex), wires
     if name == "Rot":
         return RG.Rot(*[float(p) for p in op.data]).astype(complex), wires
-    if name in ("CNOT", "Hadamard", "S", "T", "PauliX", "PauliY", "PauliZ", "SX", "Identity", "CZ", "SWAP", "CY"):
+    if name in ("CNOT", "Hadamard", "S", "T", "PauliX", "PauliY", "PauliZ", "SX", "Identity", "CZ", "SWAP", "CY", "ISWAP"):
         return RG.matrix(name), wires
+    if name == "Adjoint(ISWAP)":
+        return RG.ISWAP.conj().T, wires
     if name == "Adjoint(S)":
         return S.conj().T, wires
     if name == "Adjoint(T)":
